@@ -210,8 +210,14 @@ def decode_member(desc, tier, seed, props=('C01', 'C03', 'C07', 'C16'), encoders
                                   wclass=None if act[k] else forced_choice_class(b, desc, inst, node, enc))
                 try:
                     _, xn, an = gp.get_graph(list(x), create=False)
-                    ctx.check('C07.create-flag-agreement', veq(xn, xi) and list(an) == list(act), wit,
-                              f'create=False gives {list(xn)} {list(an)}; create=True gives {xi} {list(act)}', nt)
+                    agree = veq(xn, xi) and list(an) == list(act)
+                    # names the situation "fast encoder, the raw vector is not valid itself (both decodes correct it, to
+                    # different neighbours)": the same defect as C05's imputation-cache finding
+                    wc = None
+                    if not agree and enc == 'FAST' and not veq([float(v) for v in x], xi) and not veq([float(v) for v in x], xn):
+                        wc = 'imputed-vector-depends-on-imputation-cache|FAST'
+                    ctx.check('C07.create-flag-agreement', agree, wit,
+                              f'create=False gives {list(xn)} {list(an)}; create=True gives {xi} {list(act)}', nt, wclass=wc)
                 except Exception as e:  # noqa
                     ctx.check('C07.create-flag-agreement', False, wit, f'create=False raised {type(e).__name__}: {e}', nt)
             if 'C16' in props and desc.dvs:
